@@ -433,6 +433,9 @@ func genSnapCase(rng *fw.Rng, pr *Profile) (*SnapCase, string) {
 		fr := make([][2]float64, len(r))
 		for j, p := range r {
 			ip := P{gs.OX + px*pix + p[0]*q + jx, gs.OY + py*pix + p[1]*q + jy}
+			if flushed && (ip[0] < gs.OX || ip[1] < gs.OY || ip[0] >= gs.OX+n*pix || ip[1] >= gs.OY+n*pix) {
+				return nil, "flush-outside" // a generator whose bounds are not its lattice bounds: the draw is skipped
+			}
 			// exact pre-image where float64 has one (|v| < 2^53); otherwise the nearest float: the oracle
 			// always reasons about the integers the tool derives from the floats actually passed
 			f, _ := grid.ToFloatPoint(ip)
